@@ -27,6 +27,7 @@ func init() {
 
 type c01Field struct {
 	N string `json:"n"`
+	T string `json:"t"`
 	I int    `json:"i"`
 	O int    `json:"o"`
 	W int    `json:"w"`
